@@ -181,13 +181,17 @@ CHECKS["C04"] = {
              "is cancelled and the transport is FROZEN (no accept, no delivery; point releases only). Oracle at quiescence: every operation of the RPC has returned; receives blocked at cancel time satisfy "
              "errors.Is(err, context.Canceled) and, in the default mode, so do sends parked in the transport (only when the cancel is the sole termination cause); nil is never returned by a blocked op; "
              "operations issued afterwards fail at once; once the transport moves again the peer handler ends with its stream context done and the connection is closed or a probe RPC succeeds. "
-             "Non-trivial: >= 2 operations in flight at cancel time with a write parked in the transport, a goroutine held at a point, or a terminal call in flight. Distinct by action trace + programs."),
+             "Non-trivial: >= 2 operations in flight at cancel time with a write parked in the transport, a goroutine held at a point, or a terminal call in flight. Distinct by action trace + programs. "
+             "server_side: a handler with a sender goroutine (sends parked in the transport because server->client bytes are not taken) and a receiver goroutine is brought into flight, then the serving context is cancelled, the client disconnects, or the client cancels "
+             "(both modes; only what has to travel moves); every handler call must return, the handler's stream context must be done, later handler sends/receives must fail. Non-trivial: a handler operation in flight."),
     "assumptions": E3_ASSUME + ["known findings F7, F13, F14 are excluded by construction (see known_findings.jsonl) and their minimal scenarios are replayed on every run",
-                                "a send that was merely queued behind another send may report io.EOF instead of the context error (the suite's own TestCancel relies on that); operations held at a scheduling point are 'in progress', only their return is demanded"],
+                                "server side: after a client's SOFT cancel the connection lives on and the client keeps reading, so server->client bytes move again (a send parked in a dead network can only end with the transport)", "a send that was merely queued behind another send may report io.EOF instead of the context error (the suite's own TestCancel relies on that); operations held at a scheduling point are 'in progress', only their return is demanded"],
     "subs": [
         {"test": "TestC04ClientCancel", "prop": "C04/client_cancel", "quick": 12000, "thorough": 400000, "shards_quick": 16, "shards_thorough": 16, "gomaxprocs": 1},
+        {"test": "TestC04ServerSide", "prop": "C04/server_side", "quick": 8000, "thorough": 300000, "shards_quick": 16, "shards_thorough": 16, "gomaxprocs": 1},
     ],
-    "floors": {"C04/client_cancel": {"inflight_2plus": 0.15, "write_parked_at_cancel": 0.15, "soft": 0.3, "hard": 0.3, "late_ops": 0.3}},
+    "floors": {"C04/client_cancel": {"inflight_2plus": 0.15, "write_parked_at_cancel": 0.15, "soft": 0.3, "hard": 0.3, "late_ops": 0.3},
+               "C04/server_side": {"handler_ops_inflight_1plus": 0.4, "handler_ops_inflight_2": 0.1, "handler_send_parked_in_transport": 0.15}},
 }
 
 CHECKS["C01"] = {
